@@ -1395,4 +1395,473 @@ end
 
 end wire
 
+
+/-! ### the text format: parsing what was printed -/
+
+theorem wparse_atom (F : Nat) (tok : String) (rest : List String) (h1 : tok ≠ "(") (h2 : tok ≠ ")") :
+    wparse (F + 1) (tok :: rest) = some (atomOf tok, rest) := by
+  simp [wparse, h1, h2]
+
+theorem wparse_open (F : Nat) (ty : String) (rest : List String) :
+    wparse (F + 1) ("(" :: ty :: rest) = match wparseFields F rest with
+      | some (fs, r) => (composite ty fs).map (fun q => (q, r))
+      | none => none := by
+  simp [wparse]
+  cases wparseFields F rest with
+  | none => rfl
+  | some p => rfl
+
+theorem wparseFields_close (F : Nat) (rest : List String) : wparseFields (F + 1) (")" :: rest) = some ([], rest) := by
+  simp [wparseFields]
+
+theorem wparseFields_field (F : Nat) (tok : String) (rest : List String) (h : tok ≠ ")") :
+    wparseFields (F + 1) (tok :: rest) = match wparse F (tok :: rest) with
+      | some (q, r') => (match wparseFields F r' with
+        | some (qs, r'') => some (q :: qs, r'')
+        | none => none)
+      | none => none := by
+  simp [wparseFields, h]
+  cases wparse F (tok :: rest) with
+  | none => rfl
+  | some p =>
+    obtain ⟨q, r'⟩ := p
+    simp only []
+    cases wparseFields F r' with
+    | none => rfl
+    | some p2 => rfl
+
+/-- the parameter list of a lambda -/
+theorem wparseFields_idents : ∀ (ps : List String) (rest : List String) (F : Nat), ps.all identOK = true →
+    ps.length + 1 < F → wparseFields F (ps ++ ")" :: rest) = some (ps.map Q.var, rest)
+  | [], rest, F, _, hF => by
+    obtain ⟨F', rfl⟩ : ∃ F', F = F' + 1 := ⟨F - 1, by omega⟩
+    simp [wparseFields_close]
+  | p :: ps, rest, F, hp, hF => by
+    obtain ⟨F', rfl⟩ : ∃ F', F = F' + 1 := ⟨F - 1, by omega⟩
+    obtain ⟨F'', rfl⟩ : ∃ F'', F' = F'' + 1 := ⟨F' - 1, by simp at hF; omega⟩
+    simp only [List.all_cons, Bool.and_eq_true] at hp
+    obtain ⟨hp1, hp2⟩ := hp
+    simp only [identOK, Bool.and_eq_true, bne_iff_ne, ne_eq] at hp1
+    obtain ⟨⟨h1, h2⟩, h3⟩ := hp1
+    have h3' : atomOf p = Q.var p := (Q.beq_eq _ _).1 h3
+    simp only [List.cons_append]
+    rw [wparseFields_field _ _ _ h2, wparse_atom _ _ _ h1 h2, h3']
+    simp only []
+    rw [wparseFields_idents ps rest (F'' + 1) hp2 (by simp at hF; omega)]
+    simp
+
+theorem lamParams_vars (ps : List String) : lamParams (ps.map Q.var) = some ps := by
+  induction ps with
+  | nil => simp [lamParams]
+  | cons p ps ih => simp [lamParams, ih]
+
+def Good (toks : List String) : Prop := ∃ h t, toks = h :: t ∧ h ≠ ")"
+
+theorem good_open (ty : String) (l : List String) : Good ("(" :: ty :: l) := ⟨"(", ty :: l, rfl, by decide⟩
+
+/-- a composite node whose fields are parsed by `hPL` -/
+theorem node_generic (ty : String) (ks : List Q) (flat : List String)
+    (hPL : ∀ rest F, flat.length + 1 < F → wparseFields F (flat ++ ")" :: rest) = some (wireNormL ks, rest))
+    (rest : List String) (F : Nat) (hF : flat.length + 3 < F) :
+    wparse F ((["(", ty] ++ flat ++ [")"]) ++ rest) = (composite ty (wireNormL ks)).map (fun q => (q, rest)) := by
+  obtain ⟨F', rfl⟩ : ∃ F', F = F' + 1 := ⟨F - 1, by omega⟩
+  have : (["(", ty] ++ flat ++ [")"]) ++ rest = "(" :: ty :: (flat ++ ")" :: rest) := by simp
+  rw [this, wparse_open, hPL rest F' (by omega)]
+
+theorem wireNorm_node (t : String) (ks : List Q) :
+    wireNorm (.node t ks) = .node (if t == "tuple" then "list" else t) (wireNormL ks) := by
+  simp [wireNorm]
+
+theorem wireNormL_length (ks : List Q) : (wireNormL ks).length = ks.length := by
+  induction ks with
+  | nil => simp [wireNormL]
+  | cons k ks ih => simp [wireNormL, ih]
+
+theorem wprintEach_length : ∀ (ks : List Q) (parts : List (List String)), wprintEach ks = some parts → parts.length = ks.length
+  | [], parts, h => by simp [wprintEach] at h; subst h; rfl
+  | k :: ks, parts, h => by
+    simp only [wprintEach] at h
+    cases h1 : wprint k with
+    | none => simp [h1] at h
+    | some a =>
+      cases h2 : wprintEach ks with
+      | none => simp [h1, h2] at h
+      | some b =>
+        simp [h1, h2] at h; subst h
+        simp [wprintEach_length ks b h2]
+
+/-- printing then parsing one term -/
+def Pk (k : Q) (p : List String) : Prop :=
+  Good p ∧ ∀ rest F, p.length < F → wparse F (p ++ rest) = some (wireNorm k, rest)
+
+def AllP : List Q → List (List String) → Prop
+  | [], [] => True
+  | k :: ks, p :: ps => Pk k p ∧ AllP ks ps
+  | _, _ => False
+
+theorem fields_of_all : ∀ (ks : List Q) (parts : List (List String)), AllP ks parts →
+    ∀ rest F, parts.flatten.length + 1 < F → wparseFields F (parts.flatten ++ ")" :: rest) = some (wireNormL ks, rest)
+  | [], [], _, rest, F, hF => by
+    obtain ⟨F', rfl⟩ : ∃ F', F = F' + 1 := ⟨F - 1, by omega⟩
+    simp [wparseFields_close, wireNormL]
+  | k :: ks, p :: ps, h, rest, F, hF => by
+    obtain ⟨⟨⟨hd, tl, rfl, hne⟩, hk⟩, hrest⟩ := h
+    obtain ⟨F', rfl⟩ : ∃ F', F = F' + 1 := ⟨F - 1, by omega⟩
+    simp only [List.flatten_cons, List.length_append, List.length_cons] at hF
+    have e : ((hd :: tl) :: ps).flatten ++ ")" :: rest = hd :: (tl ++ (ps.flatten ++ ")" :: rest)) := by simp
+    rw [e, wparseFields_field _ _ _ hne]
+    have := hk (ps.flatten ++ ")" :: rest) F' (by simp; omega)
+    simp only [List.cons_append] at this
+    rw [this]
+    simp only []
+    rw [fields_of_all ks ps hrest rest F' (by omega)]
+    simp [wireNormL]
+  | [], _ :: _, h, _, _, _ => by simp [AllP] at h
+  | _ :: _, [], h, _, _, _ => by simp [AllP] at h
+
+theorem allP_take : ∀ (ks : List Q) (parts : List (List String)) (i : Nat), AllP ks parts → AllP (ks.take i) (parts.take i)
+  | [], [], i, _ => by simp [AllP]
+  | k :: ks, p :: ps, 0, _ => by simp [AllP]
+  | k :: ks, p :: ps, i + 1, h => by simp only [List.take_succ_cons, AllP]; exact ⟨h.1, allP_take ks ps i h.2⟩
+  | [], _ :: _, _, h => by simp [AllP] at h
+  | _ :: _, [], _, h => by simp [AllP] at h
+
+theorem allP_drop : ∀ (ks : List Q) (parts : List (List String)) (i : Nat), AllP ks parts → AllP (ks.drop i) (parts.drop i)
+  | [], [], i, _ => by simp [AllP]
+  | k :: ks, p :: ps, 0, h => by simpa using h
+  | k :: ks, p :: ps, i + 1, h => by simp only [List.drop_succ_cons]; exact allP_drop ks ps i h.2
+  | [], _ :: _, _, h => by simp [AllP] at h
+  | _ :: _, [], _, h => by simp [AllP] at h
+
+theorem allP_length : ∀ (ks : List Q) (parts : List (List String)), AllP ks parts → parts.length = ks.length
+  | [], [], _ => rfl
+  | k :: ks, p :: ps, h => by simp [allP_length ks ps h.2]
+  | [], _ :: _, h => by simp [AllP] at h
+  | _ :: _, [], h => by simp [AllP] at h
+
+theorem wireNormL_append (a b : List Q) : wireNormL (a ++ b) = wireNormL a ++ wireNormL b := by
+  induction a with
+  | nil => simp [wireNormL]
+  | cons x a ih => simp [wireNormL, ih]
+
+theorem len1 {α} (l : List α) (h : [()].length = l.length) : ∃ a, l = [a] := by
+  match l, h with
+  | [a], _ => exact ⟨a, rfl⟩
+
+/-- the result for a node whose fields are exactly the children -/
+theorem node_via_generic (t ty : String) (ks : List Q) (parts : List (List String)) (hall : AllP ks parts)
+    (hc : composite ty (wireNormL ks) = some (wireNorm (.node t ks))) :
+    Pk (.node t ks) (["(", ty] ++ parts.flatten ++ [")"]) := by
+  refine ⟨good_open ty _, fun rest F hF => ?_⟩
+  simp only [List.length_append, List.length_cons, List.length_nil] at hF
+  rw [node_generic ty ks parts.flatten (fields_of_all ks parts hall) rest F (by omega), hc]
+  rfl
+
+theorem ne_tuple_of_prefix (pre rest : String) (h : pre.toList.head? ≠ some 't') (hne : pre.toList ≠ []) :
+    (pre ++ rest == "tuple") = false := by
+  apply beq_eq_false_iff_ne.2
+  intro e
+  have := congrArg String.toList e
+  simp only [String.toList_append] at this
+  cases hp : pre.toList with
+  | nil => exact hne hp
+  | cons c cs =>
+    rw [hp] at this h
+    have hc : c = 't' := by
+      have := congrArg List.head? this
+      simpa using this
+    exact h (by simp [hc])
+
+theorem tag2_ne_tuple (sy t : String) (h : tag2 sy = some t) : (t == "tuple") = false := by
+  unfold tag2 at h
+  split at h
+  · simp only [Option.some.injEq] at h; subst h; exact ne_tuple_of_prefix "bin:" _ (by decide) (by decide)
+  · split at h
+    · simp only [Option.some.injEq] at h; subst h; exact ne_tuple_of_prefix "bool:" _ (by decide) (by decide)
+    · simp only [Option.map_eq_some_iff] at h
+      obtain ⟨op, _, rfl⟩ := h
+      exact ne_tuple_of_prefix "cmp:" _ (by decide) (by decide)
+
+theorem tag1_ne_tuple (sy t : String) (h : tag1 sy = some t) : (t == "tuple") = false := by
+  unfold tag1 at h
+  simp only [Option.map_eq_some_iff] at h
+  obtain ⟨op, _, rfl⟩ := h
+  exact ne_tuple_of_prefix "un:" _ (by decide) (by decide)
+
+theorem composite_plain2 (ty : String) (l r : Q) (h : specialTy ty = false) :
+    composite ty [l, r] = (tag2 ty).map (fun t => .node t [l, r]) := by
+  simp only [specialTy, Bool.or_eq_false_iff] at h
+  obtain ⟨⟨⟨⟨⟨⟨h1, h2⟩, h3⟩, h4⟩, h5⟩, h6⟩, h7⟩ := h
+  simp [composite, h1, h2, h3, h4, h5, h6, h7]
+
+theorem composite_plain1 (ty : String) (v : Q) (h : specialTy ty = false) :
+    composite ty [v] = (tag1 ty).map (fun t => .node t [v]) := by
+  simp only [specialTy, Bool.or_eq_false_iff] at h
+  obtain ⟨⟨⟨⟨⟨⟨h1, h2⟩, h3⟩, h4⟩, h5⟩, h6⟩, h7⟩ := h
+  simp [composite, h1, h2, h3, h4, h5, h6, h7]
+
+theorem len2 (ks : List Q) (h : 2 = ks.length) : ∃ a b, ks = [a, b] := by
+  match ks, h with
+  | [a, b], _ => exact ⟨a, b, rfl⟩
+
+theorem bin_like (tbl : List (String × String)) (t op : String) (ks : List Q) (tl tr toks : List String)
+    (hall : AllP ks [tl, tr]) (hok : symOK2 tbl op t = true)
+    (hp : (symOf tbl op).map (fun sy => ["(", sy] ++ tl ++ tr ++ [")"]) = some toks) : Pk (.node t ks) toks := by
+  unfold symOK2 at hok
+  cases hsy : symOf tbl op with
+  | none => simp [hsy] at hp
+  | some sy =>
+    simp only [hsy, Option.map_some, Option.some.injEq] at hp
+    simp only [hsy, Bool.and_eq_true, Bool.not_eq_true', beq_iff_eq] at hok
+    obtain ⟨⟨⟨hsp, _⟩, _⟩, htag⟩ := hok
+    subst hp
+    obtain ⟨l, r, rfl⟩ := len2 ks (by simpa using allP_length _ _ hall)
+    have := node_via_generic t sy [l, r] [tl, tr] hall (by
+      simp only [wireNormL]
+      rw [composite_plain2 sy _ _ hsp]
+      simp [wireNormL, htag, wireNorm_node, tag2_ne_tuple sy t htag])
+    simpa using this
+
+theorem node_roundtrip (t : String) (ks : List Q) (parts : List (List String)) (toks : List String)
+    (hall : AllP ks parts) (hok : tagWireOK t ks.length = true) (hp : wassemble t parts = some toks) :
+    Pk (.node t ks) toks := by
+  have hlen := allP_length ks parts hall
+  unfold wassemble at hp
+  unfold tagWireOK at hok
+  split at hp
+  · -- attr
+    rename_i name tv heq
+    simp only [Option.some.injEq] at hp; subst hp
+    match ks, hall, hlen, hok with
+    | [v], hall, _, hok =>
+      rw [heq] at hok
+      simp only [List.length_singleton, Bool.and_eq_true, beq_iff_eq, bne_iff_ne, ne_eq] at hok
+      obtain ⟨⟨⟨⟨ht, hn1⟩, hn2⟩, hat⟩, hattr⟩ := hok
+      have hat' := (Q.beq_eq _ _).1 hat
+      obtain ⟨⟨⟨hd, tl, rfl, hne⟩, hk⟩, _⟩ := hall
+      refine ⟨good_open _ _, fun rest F hF => ?_⟩
+      simp only [List.length_append, List.length_cons, List.length_nil] at hF
+      obtain ⟨F1, rfl⟩ : ∃ F1, F = F1 + 1 + 1 + 1 + 1 := ⟨F - 4, by omega⟩
+      have e : (["(", "attr"] ++ (hd :: tl) ++ ["'" ++ name ++ "'", ")"]) ++ rest =
+          "(" :: "attr" :: hd :: (tl ++ ("'" ++ name ++ "'") :: ")" :: rest) := by simp
+      rw [e, wparse_open, wparseFields_field _ _ _ hne]
+      have := hk (("'" ++ name ++ "'") :: ")" :: rest) (F1 + 1 + 1) (by simp; omega)
+      simp only [List.cons_append] at this
+      rw [this]
+      simp only []
+      rw [wparseFields_field _ _ _ hn2, wparse_atom _ _ _ hn1 hn2, hat']
+      simp only []
+      rw [wparseFields_close]
+      simp only [composite, wireNorm_node]
+      have e1 : ("attr" == "list") = false := by decide
+      have e2 : ("attr" == "dict") = false := by decide
+      have hnt : (t == "tuple") = false := by
+        rw [ht]; apply beq_eq_false_iff_ne.2; intro h
+        have := congrArg String.toList h; simp at this
+      simp [e1, e2, hattr, hnt, ← ht, wireNormL, wireNorm]
+  · -- bin
+    rename_i op tl tr heq
+    obtain ⟨l, r, rfl⟩ := len2 ks (by simpa using hlen)
+    rw [heq] at hok
+    exact bin_like binSym t op _ tl tr toks hall (by simpa using hok) hp
+  · -- cmp
+    rename_i op tl tr heq
+    obtain ⟨l, r, rfl⟩ := len2 ks (by simpa using hlen)
+    rw [heq] at hok
+    exact bin_like cmpSym t op _ tl tr toks hall (by simpa using hok) hp
+  · -- un
+    rename_i op tv heq
+    obtain ⟨v, rfl⟩ := len1 ks (by simpa using hlen)
+    rw [heq] at hok
+    simp only [List.length_singleton] at hok
+    cases hsy : symOf unSym op with
+    | none => simp [hsy] at hp
+    | some sy =>
+      simp only [hsy, Option.map_some, Option.some.injEq] at hp
+      simp only [hsy, Bool.and_eq_true, Bool.not_eq_true', beq_iff_eq] at hok
+      obtain ⟨⟨⟨hsp, _⟩, _⟩, htag⟩ := hok
+      subst hp
+      have := node_via_generic t sy [v] [tv] hall (by
+        simp only [wireNormL]
+        rw [composite_plain1 sy _ hsp]
+        simp [htag, wireNorm_node, wireNormL, tag1_ne_tuple sy t htag])
+      simpa using this
+  · -- bool
+    rename_i op tl tr heq
+    obtain ⟨l, r, rfl⟩ := len2 ks (by simpa using hlen)
+    rw [heq] at hok
+    exact bin_like boolSym t op _ tl tr toks hall (by simpa using hok) hp
+  · -- if
+    rename_i x tc ta tb heq
+    simp only [Option.some.injEq] at hp; subst hp
+    match ks, hall, hlen, hok with
+    | [c, a, b], hall, _, hok =>
+      rw [heq] at hok
+      simp only [List.length_cons, List.length_nil, beq_iff_eq] at hok
+      have ht : t = "if" := by simpa using hok
+      subst ht
+      have := node_via_generic "if" "if" [c, a, b] [tc, ta, tb] hall (by
+        have e1 : ("if" == "list") = false := by decide
+        have e2 : ("if" == "dict") = false := by decide
+        have e3 : ("if" == "attr") = false := by decide
+        have e4 : ("if" == "subscript") = false := by decide
+        have e5 : ("if" == "call") = false := by decide
+        have e6 : ("if" == "tuple") = false := by decide
+        simp [composite, wireNormL, wireNorm_node, e1, e2, e3, e4, e5, e6])
+      simpa using this
+  · -- tuple
+    rename_i x heq
+    simp only [Option.some.injEq] at hp; subst hp
+    rw [heq] at hok
+    have ht : t = "tuple" := by simpa using hok
+    subst ht
+    exact node_via_generic "tuple" "list" ks _ hall (by simp [composite, wireNorm_node])
+  · -- list
+    rename_i x heq
+    simp only [Option.some.injEq] at hp; subst hp
+    rw [heq] at hok
+    have ht : t = "list" := by
+      revert hok; split <;> simp_all
+    subst ht
+    have e6 : ("list" == "tuple") = false := by decide
+    exact node_via_generic "list" "list" ks _ hall (by simp [composite, wireNorm_node, e6])
+  · -- dict
+    rename_i pp _ _ x heq
+    simp only [Option.some.injEq] at hp; subst hp
+    rw [heq] at hok
+    have ht : t = "dict" := by
+      revert hok; split <;> simp_all
+    subst ht
+    refine ⟨good_open _ _, fun rest F hF => ?_⟩
+    simp only [List.length_append, List.length_cons, List.length_nil] at hF
+    obtain ⟨F1, rfl⟩ : ∃ F1, F = F1 + 1 + 1 + 1 + 1 := ⟨F - 4, by omega⟩
+    generalize hh : pp.length / 2 = h at *
+    have hA := fields_of_all _ _ (allP_take ks pp h hall)
+    have hB := fields_of_all _ _ (allP_drop ks pp h hall)
+    have e : (["(", "dict", "(", "list"] ++ (List.take h pp).flatten ++ [")", "(", "list"] ++ (List.drop h pp).flatten ++ [")", ")"]) ++ rest =
+        "(" :: "dict" :: "(" :: "list" :: ((List.take h pp).flatten ++ ")" :: ("(" :: "list" :: ((List.drop h pp).flatten ++ ")" :: ")" :: rest))) := by simp
+    have cl : ∀ fs, composite "list" fs = some (.node "list" fs) := by intro fs; simp [composite]
+    rw [e, wparse_open, wparseFields_field _ _ _ (by decide : "(" ≠ ")"), wparse_open,
+      hA _ (F1 + 1) (by omega)]
+    simp only [Option.map, cl]
+    rw [wparseFields_field _ _ _ (by decide : "(" ≠ ")"), wparse_open, hB _ F1 (by omega)]
+    simp only [Option.map, cl]
+    have e1 : ("dict" == "list") = false := by decide
+    have e6 : ("dict" == "tuple") = false := by decide
+    have hF1 : ∃ F0, F1 = F0 + 1 := ⟨F1 - 1, by omega⟩
+    obtain ⟨F0, rfl⟩ := hF1
+    rw [wparseFields_close]
+    simp [composite, e1, e6, wireNorm_node, ← wireNormL_append]
+  · -- sub
+    rename_i x tv ti heq
+    simp only [Option.some.injEq] at hp; subst hp
+    obtain ⟨v, i, rfl⟩ := len2 ks (by simpa using hlen)
+    rw [heq] at hok
+    have ht : t = "sub" := by simpa using hok
+    subst ht
+    have := node_via_generic "sub" "subscript" [v, i] [tv, ti] hall (by
+      have e1 : ("subscript" == "list") = false := by decide
+      have e2 : ("subscript" == "dict") = false := by decide
+      have e3 : ("subscript" == "attr") = false := by decide
+      have e6 : ("sub" == "tuple") = false := by decide
+      simp [composite, wireNormL, wireNorm_node, e1, e2, e3, e6])
+    simpa using this
+  · simp at hp
+
+mutual
+theorem wparse_wprint : ∀ (q : Q) (toks : List String), wireOK q = true → wprint q = some toks → Pk q toks
+  | .var x, toks, hok, hp => by
+    simp only [wprint, Option.some.injEq] at hp; subst hp
+    simp only [wireOK, identOK, Bool.and_eq_true, bne_iff_ne, ne_eq] at hok
+    obtain ⟨⟨h1, h2⟩, h3⟩ := hok
+    refine ⟨⟨x, [], rfl, h2⟩, fun rest F hF => ?_⟩
+    obtain ⟨F', rfl⟩ : ∃ F', F = F' + 1 := ⟨F - 1, by simp at hF; omega⟩
+    simp [wparse_atom _ _ _ h1 h2, (Q.beq_eq _ _).1 h3, wireNorm]
+  | .lit c, toks, hok, hp => by
+    simp only [wprint, Option.some.injEq] at hp; subst hp
+    simp only [wireOK, litOK, Bool.and_eq_true, bne_iff_ne, ne_eq] at hok
+    obtain ⟨⟨h1, h2⟩, h3⟩ := hok
+    refine ⟨⟨_, [], rfl, h2⟩, fun rest F hF => ?_⟩
+    obtain ⟨F', rfl⟩ : ∃ F', F = F' + 1 := ⟨F - 1, by simp at hF; omega⟩
+    simp [wparse_atom _ _ _ h1 h2, (Q.beq_eq _ _).1 h3, wireNorm]
+  | .lam ps b, toks, hok, hp => by
+    simp only [wireOK, Bool.and_eq_true] at hok
+    simp only [wprint, Option.map_eq_some_iff] at hp
+    obtain ⟨tb, hb, rfl⟩ := hp
+    obtain ⟨⟨hd, tl, rfl, hne⟩, hk⟩ := wparse_wprint b tb hok.2 hb
+    refine ⟨good_open _ _, fun rest F hF => ?_⟩
+    simp only [List.length_append, List.length_cons, List.length_nil] at hF
+    obtain ⟨F1, rfl⟩ : ∃ F1, F = F1 + 1 + 1 + 1 + 1 := ⟨F - 4, by omega⟩
+    have e : (["(", "lambda", "(", "list"] ++ ps ++ [")"] ++ (hd :: tl) ++ [")"]) ++ rest =
+        "(" :: "lambda" :: "(" :: "list" :: (ps ++ ")" :: (hd :: (tl ++ ")" :: rest))) := by simp
+    have cl : ∀ fs, composite "list" fs = some (.node "list" fs) := by intro fs; simp [composite]
+    rw [e, wparse_open, wparseFields_field _ _ _ (by decide : "(" ≠ ")"), wparse_open,
+      wparseFields_idents ps _ (F1 + 1) hok.1 (by omega)]
+    simp only [Option.map, cl]
+    rw [wparseFields_field _ _ _ hne]
+    have := hk (")" :: rest) (F1 + 1) (by simp; omega)
+    simp only [List.cons_append] at this
+    rw [this]
+    simp only []
+    rw [wparseFields_close]
+    have e1 : ("lambda" == "list") = false := by decide
+    have e2 : ("lambda" == "dict") = false := by decide
+    have e3 : ("lambda" == "attr") = false := by decide
+    have e4 : ("lambda" == "subscript") = false := by decide
+    have e5 : ("lambda" == "call") = false := by decide
+    have e6 : ("lambda" == "if") = false := by decide
+    simp [composite, e1, e2, e3, e4, e5, e6, lamParams_vars, wireNorm]
+  | .app f as, toks, hok, hp => by
+    simp only [wireOK, Bool.and_eq_true] at hok
+    simp only [wprint] at hp
+    cases hf : wprint f with
+    | none => simp [hf] at hp
+    | some tf =>
+      cases ha : wprintEach as with
+      | none => simp [hf, ha] at hp
+      | some ta =>
+        simp only [hf, ha, Option.some.injEq] at hp; subst hp
+        have hall : AllP (f :: as) (tf :: ta) := ⟨wparse_wprint f tf hok.1 hf, wprintEach_all as ta hok.2 ha⟩
+        refine ⟨good_open _ _, fun rest F hF => ?_⟩
+        simp only [List.length_append, List.length_cons, List.length_nil] at hF
+        have := node_generic "call" (f :: as) (tf :: ta).flatten (fields_of_all _ _ hall) rest F
+          (by simp only [List.flatten_cons, List.length_append]; omega)
+        simp only [List.flatten_cons] at this
+        have e : (["(", "call"] ++ tf ++ ta.flatten ++ [")"]) ++ rest = (["(", "call"] ++ (tf ++ ta.flatten) ++ [")"]) ++ rest := by simp
+        rw [e, this]
+        have e1 : ("call" == "list") = false := by decide
+        have e2 : ("call" == "dict") = false := by decide
+        have e3 : ("call" == "attr") = false := by decide
+        have e4 : ("call" == "subscript") = false := by decide
+        simp [composite, e1, e2, e3, e4, wireNormL, wireNorm]
+  | .node t ks, toks, hok, hp => by
+    simp only [wireOK, Bool.and_eq_true] at hok
+    simp only [wprint] at hp
+    cases hk : wprintEach ks with
+    | none => simp [hk] at hp
+    | some parts =>
+      simp only [hk] at hp
+      exact node_roundtrip t ks parts toks (wprintEach_all ks parts hok.2 hk) hok.1 hp
+theorem wprintEach_all : ∀ (qs : List Q) (parts : List (List String)), wireOKL qs = true →
+    wprintEach qs = some parts → AllP qs parts
+  | [], parts, _, hp => by simp [wprintEach] at hp; subst hp; simp [AllP]
+  | q :: qs, parts, hok, hp => by
+    simp only [wireOKL, Bool.and_eq_true] at hok
+    simp only [wprintEach] at hp
+    cases h1 : wprint q with
+    | none => simp [h1] at hp
+    | some a =>
+      cases h2 : wprintEach qs with
+      | none => simp [h1, h2] at hp
+      | some b =>
+        simp only [h1, h2, Option.some.injEq] at hp; subst hp
+        exact ⟨wparse_wprint q a hok.1 h1, wprintEach_all qs b hok.2 h2⟩
+end
+
+/-- printing a query the wire format can carry and parsing the tokens back gives its `wireNorm` -/
+theorem wire_roundtrip_core (q : Q) (toks : List String) (hok : wireOK q = true) (hp : wprint q = some toks) :
+    wparse (toks.length + 1) toks = some (wireNorm q, []) := by
+  have := (wparse_wprint q toks hok hp).2 [] (toks.length + 1) (by omega)
+  simpa using this
+
 end FaxVerif.C08
